@@ -38,7 +38,22 @@ const (
 	// AFTER packing: instance types without such an offering stay among the launch options, and the pods were fitted
 	// against any compatible offering group, not against the reserved offering's allocatable
 	kfReservedOptions = "reserved-claim-keeps-options-without-reserved-offering"
+	// F17: a pod whose volume-topology lookup fails (one of its claims no longer exists) is dropped from the volume
+	// requirements map but still handed to Solve, which then ignores the topology of its other volumes
+	kfVolLookup = "volume-topology-ignored-when-a-claim-lookup-fails"
 )
+
+// maskVolLookup: pods with a missing claim lose their volume-topology obligations in the core case.
+func maskVolLookup(m *masked, pods []sk.PodDump) {
+	for i, p := range pods {
+		if len(p.MissingClaims) > 0 && len(p.VolTerms) > 0 {
+			q := m.pods[i]
+			q.VolTerms = [][]sk.Term{}
+			m.pods[i] = q
+			m.hit(kfVolLookup)
+		}
+	}
+}
 
 func positive(op string) bool { return op != "NotIn" && op != "DoesNotExist" }
 
@@ -193,6 +208,7 @@ func maskClaim(cd sk.ClaimDump, daemons []sk.PodDump) masked {
 		}
 		m.pods = append(m.pods, q)
 	}
+	maskVolLookup(&m, cd.Pods)
 	for _, d := range daemons {
 		switch {
 		case len(d.Req) >= 2:
@@ -258,6 +274,7 @@ func maskExisting(e sk.ExistingDump) masked {
 		}
 		m.pods = append(m.pods, q)
 	}
+	maskVolLookup(&m, e.Placed)
 	for _, d := range e.Daemons {
 		if len(d.Req) >= 2 {
 			m.hit(kfDaemonTerms)
